@@ -23,6 +23,26 @@ def run(ctx, replay):
     qc.samples(ctx, tr)
     if stats["queries"] < 50 or stats["clean"] < 20:
         raise vcore.Unresolved("too few judged queries (%s)" % stats)
+    # ---- repaired sub-cases of the arrival-order finding stay repaired: one series, slots written out of order
+    # inside and across the memory write window, then flushed -- judged with DevOrder switched OFF
+    import os
+    # (the probe `memfile` -- the same slot in a file and in the memory database -- stays under the known finding:
+    # reading the family oldest-first was tried and withdrawn, see DESIGN 0.6)
+    for probe, what in (("window", "last / first of one series, out-of-order slots, window compaction, flush"),):
+        pr = os.path.join(ctx.scratch, "probe-%s.ndjson" % probe)
+        scrp = os.path.join(ctx.scratch, "scr-probe-%s" % probe)
+        os.makedirs(scrp, exist_ok=True)
+        ctx.run_vdrive(["query", "--mode", "probe2", "--hist", 1, "--out", pr, "--scratch", scrp], env_extra={"PROBE": probe}, timeout=300)
+        ok, info = ctx.validate_trace("QueryTrace", "QueryTrace_orderstrict.cfg", pr, dfs=False)
+        if not ok:
+            ctx.violation("QueryTrace:probe:%s:order" % probe, "the probe (%s) is rejected with DevOrder off: %s" % (what, info), replay_src=pr)
+    # ---- the flush window (known finding C11-K8), entered deterministically through the family's sequence
+    # acknowledgement callback: judged like every other answer
+    pw = os.path.join(ctx.scratch, "probe-flushwindow.ndjson")
+    scrw = os.path.join(ctx.scratch, "scr-probe-flushwindow")
+    os.makedirs(scrw, exist_ok=True)
+    ctx.run_vdrive(["query", "--mode", "probe2", "--hist", 1, "--out", pw, "--scratch", scrw], env_extra={"PROBE": "flushwindow"}, timeout=300)
+    qc.judge(ctx, pw)
     # ---- binding self-tests and action coverage
     qc.selftests(ctx, tr, marked, thorough)
     qc.coverage(ctx, [tr])
